@@ -186,7 +186,7 @@ def c06(chk):
     chk.add_mc(tlc_mc("AnemoRpc.tla", "MC_Rpc_hostile.cfg", workers=8, timeout=900))
     # liveness: whatever a hostile stream does (garbage, stalling for ever), an honest call that got its
     # stream ends with its response, and the callee's side of every finished stream is released
-    chk.add_mc(tlc_mc("AnemoRpc.tla", "MC_Rpc_live_hostile.cfg", workers=4, timeout=600))
+    chk.add_mc(tlc_mc("AnemoRpc.tla", "MC_Rpc_live_hostile.cfg", workers=4, timeout=1500))
     runs = 8 if quick(chk) else 200
     summ = harness("c06", out=os.path.join(vlib.WORK, "C06"), seed=chk.seed, runs=runs, jobs=8, files=4, wedge_s=90,
                    streams=60 if quick(chk) else 150)
@@ -211,10 +211,10 @@ def c08(chk):
                 "h.closing / after shutdown / random instant) per real-thread teardown trial; all non-trivial")
     chk.assumptions = ["re-bindability and runtime teardown are OS / tokio effects observed on real sockets and threads; their "
                        "exploration is gate-driven and randomised, not exhaustive"]
-    chk.add_mc(tlc_mc("AnemoShut.tla", "MC_Shut.cfg", workers=2, timeout=300))
+    chk.add_mc(tlc_mc("AnemoShut.tla", "MC_Shut.cfg", workers=2, timeout=900))
     # liveness under weak fairness of the manager's and the handlers' steps: a requested shutdown is
     # answered unless the runtime goes first, and after a teardown every task comes to rest
-    chk.add_mc(tlc_mc("AnemoShut.tla", "MC_Shut_live.cfg", workers=2, timeout=300))
+    chk.add_mc(tlc_mc("AnemoShut.tla", "MC_Shut_live.cfg", workers=2, timeout=900))
     spec_mutant(chk, "live_handlers_notice_only_before_abort", "AnemoShut.tla", "MC_Shut_live.cfg",
                 [("AnemoShut.tla", '/\\ Up /\\ hs[h] = "alive" /\\ mgr # "running"', '/\\ Up /\\ hs[h] = "alive" /\\ mgr = "closed"')], workers=2)
     runs = 32 if quick(chk) else 800
